@@ -151,16 +151,16 @@ func c20Arith(c *core.Ctx, e c20Eng, op string) {
 	if c.Tier == "thorough" {
 		shapes = append(shapes, []int{6}, []int{2, 3, 2}, []int{4, 4})
 	}
-	modes := []string{"safe", "unsafe", "reuse", "incr", "reuseA", "reuseB"}
+	modes := []string{"safe", "unsafe", "reuse", "incr", "reuseA", "reuseB", "incrB"}
 	for _, t := range c20Types(e) {
 		for _, shape := range shapes {
 			n := model.Size(shape)
 			for _, form := range []string{"TT", "TS", "ST"} {
 				for _, mode := range modes {
-					if mode == "reuseB" && form != "TT" {
+					if (mode == "reuseB" || mode == "incrB") && form != "TT" {
 						continue
 					}
-					if mode == "incr" && (op == "MinBetween" || op == "MaxBetween") {
+					if (mode == "incr" || mode == "incrB") && (op == "MinBetween" || op == "MaxBetween") {
 						continue
 					}
 					for _, lp := range c20LayPairs {
